@@ -652,6 +652,19 @@ func (w *world) exec(o op) {
 	}
 }
 
+// do executes one scenario step; when it cannot be carried out (the implementation did not get
+// where the scenario expects it) what the step recorded is dropped and the scenario ends there:
+// the actions and snapshots of the completed steps are still a valid history
+func (w *world) do(o op) bool {
+	na, ns := len(w.acts), len(w.snaps)
+	w.exec(o)
+	if w.failed != "" {
+		w.acts, w.snaps = w.acts[:na], w.snaps[:ns]
+		return false
+	}
+	return true
+}
+
 func runTrace(in input) lib.Case {
 	cnt = &counters{tokOf: map[int]onet.TokenID{}, insts: map[onet.RoundID]*tproto{}, ctor: map[onet.RoundID]int{}}
 	lt := onet.NewLocalTest(suite)
@@ -680,9 +693,8 @@ func runTrace(in input) lib.Case {
 	}()
 	var done []op
 	for _, o := range in.Ops {
-		w.exec(o)
 		done = append(done, o)
-		if w.failed != "" {
+		if !w.do(o) {
 			break
 		}
 	}
@@ -705,27 +717,31 @@ func runTrace(in input) lib.Case {
 		default:
 			continue
 		}
-		w.exec(o)
+		w.do(o)
 		done = append(done, o)
 	}
 	// settle: run every goroutine to completion, answer every request
 	for guard := 0; w.failed == "" && (len(w.threads) > 0 || len(w.reqs) > 0) && guard < 400; guard++ {
 		if len(w.threads) > 0 {
 			o := op{Op: "step", Pos: len(w.threads) - 1}
-			w.exec(o)
+			w.do(o)
 			done = append(done, o)
 		} else {
 			o := op{Op: "respond", Tree: w.reqs[0]}
-			w.exec(o)
+			w.do(o)
 			done = append(done, o)
 		}
 	}
 	settled := w.failed == "" && len(w.threads) == 0 && len(w.reqs) == 0
+	class := in.Name
 	if w.failed != "" {
 		if os.Getenv("VERIF_DEBUG") != "" {
-			fmt.Fprintln(os.Stderr, "discard", in.Name, w.failed, w.acts)
+			fmt.Fprintln(os.Stderr, "cut", in.Name, w.failed, w.acts)
 		}
-		return lib.Case{Discard: true, Class: in.Name, Obs: w.failed}
+		if len(w.acts) == 0 || len(w.snaps) == 0 {
+			return lib.Case{Discard: true, Class: in.Name, Obs: w.failed}
+		}
+		class += "+cut"
 	}
 	cnt.Lock()
 	wrong := cnt.wrong
@@ -736,7 +752,10 @@ func runTrace(in input) lib.Case {
 	}
 	coq := fmt.Sprintf("CTrace %s %s %s", lib.List(w.acts), lib.List(w.snaps), lib.Bool(settled))
 	obs := map[string]interface{}{"actions": strings.Join(w.acts, "; "), "last": w.snaps[len(w.snaps)-1], "settled": settled}
-	return lib.Case{Coq: coq, Class: in.Name, Input: input{Kind: "trace", Name: in.Name, Ops: done}, Obs: obs,
+	if w.failed != "" {
+		obs["cut"] = w.failed
+	}
+	return lib.Case{Coq: coq, Class: class, Input: input{Kind: "trace", Name: in.Name, Ops: done}, Obs: obs,
 		Nontrivial: len(w.acts) > 4, Key: strings.Join(w.acts, ";")}
 }
 
@@ -931,9 +950,11 @@ func runE2E(in input) lib.Case {
 	for _, p := range insts {
 		p.Done()
 	}
+	class := in.Name
 	if bad > 0 {
-		// a send reported an error (link problem): outside the property's premise
-		return lib.Case{Discard: true, Class: in.Name, Obs: "send error"}
+		// a send reported an error although no server or link failed in this cluster: the case is
+		// still judged (a message whose send failed and that did not arrive shows as missing)
+		class += "+senderr"
 	}
 	less := func(s [][2]int) func(i, j int) bool {
 		return func(i, j int) bool {
@@ -946,8 +967,8 @@ func runE2E(in input) lib.Case {
 	sort.Slice(sent, less(sent))
 	sort.Slice(recv, less(recv))
 	coq := fmt.Sprintf("CE2E %s %s", lib.PairList(sent), lib.PairList(recv))
-	obs := map[string]interface{}{"sent": len(sent), "received": len(recv)}
-	return lib.Case{Coq: coq, Class: in.Name, Obs: obs, Nontrivial: len(sent) > 3,
+	obs := map[string]interface{}{"sent": len(sent), "received": len(recv), "send_errors": bad}
+	return lib.Case{Coq: coq, Class: class, Obs: obs, Nontrivial: len(sent) > 3,
 		Key: fmt.Sprint(in.Servers, in.Runs, in.BF, in.TCP, in.Seed)}
 }
 
@@ -1040,9 +1061,7 @@ func runStress(in input) lib.Case {
 	arrive(trees[1])
 	okB := fdB.WaitHit(30 * time.Second)
 	fdB.Release()
-	if !okA || !okB {
-		return lib.Case{Discard: true, Class: in.Name, Obs: "flush did not finish"}
-	}
+	flushHung := !okA || !okB // judged below: what was not handed over shows as missing
 	// a message of B sent after the tree arrived is delivered directly; wait until the pending list is empty
 	deadline := time.Now().Add(10 * time.Second)
 	for time.Now().Before(deadline) && len(ov.VerifPending()) > 0 {
@@ -1086,7 +1105,7 @@ func runStress(in input) lib.Case {
 	sort.Slice(recvB, less(recvB))
 	coq := fmt.Sprintf("CE2E %s %s", lib.PairList(sent), lib.PairList(recvB))
 	obs := map[string]interface{}{"backlog": backlog, "backlog_delivered": nA, "sent_B": len(sentB), "received_B": len(recvB),
-		"still_parked": len(ov.VerifPending())}
+		"still_parked": len(ov.VerifPending()), "flush_did_not_finish": flushHung}
 	return lib.Case{Coq: coq, Class: in.Name, Obs: obs, Nontrivial: len(sentB) > 3, Key: fmt.Sprint(in.Seed, in.Runs, in.Servers)}
 }
 
@@ -1173,9 +1192,7 @@ func runFlushFail(in input) lib.Case {
 		Msg: &onet.ResponseTree{TreeMarshal: tr.MakeTreeMarshal(), Roster: tr.Roster}})
 	ok := fd.WaitHit(20 * time.Second)
 	fd.Release()
-	if !ok {
-		return lib.Case{Discard: true, Class: in.Name, Obs: "flush did not finish"}
-	}
+	// a flush that does not finish is judged like any other outcome: what it did not hand over is missing
 	time.Sleep(20 * time.Millisecond)
 	cnt.Lock()
 	var recv [][2]int
@@ -1195,7 +1212,8 @@ func runFlushFail(in input) lib.Case {
 	sort.Slice(sent, less(sent))
 	sort.Slice(recv, less(recv))
 	coq := fmt.Sprintf("CE2E %s %s", lib.PairList(sent), lib.PairList(recv))
-	obs := map[string]interface{}{"parked": shape, "sent": len(sent), "received": len(recv), "still_parked": len(ov.VerifPending())}
+	obs := map[string]interface{}{"parked": shape, "sent": len(sent), "received": len(recv), "still_parked": len(ov.VerifPending()),
+		"flush_finished": ok}
 	return lib.Case{Coq: coq, Class: in.Name, Obs: obs, Nontrivial: len(sent) > 1, Key: fmt.Sprint(in.Seed)}
 }
 
